@@ -6,4 +6,4 @@ Extraction "pos_model.ml"
   setWhiteMove setEpSquare setCastleMask setHalfMoveClock setFullMoveCounter setPiece clearPiece
   computeZobristHash historyHash bookHash kingZobristHash wKingSq bKingSq nPieces
   drawRuleEquals positionEquals serialize deSerialize readFEN toFEN fixupEPSquare
-  consistencyBits normEmpty wrapInt pieceValueTbl materialIdTbl castleSqMask epMaskW epMaskB.
+  consistencyBits moveOk normEmpty wrapInt pieceValueTbl materialIdTbl castleSqMask epMaskW epMaskB.
